@@ -20,8 +20,6 @@ def claimed(pr):
         return False            # partial objects: C19
     if pr.context == 'ifelse_same' and pr.route in ('partial', 'helper'):
         return False            # the first call hands the callee's name to other code: "cannot be resolved" afterwards
-    if pr.route == 'wrapssig':
-        return False            # the wrapper's own parameter list is hidden behind the copied __signature__: C05 only
     if pr.taint and grammar.taints(pr.taint) and pr.taint[2] == 'after' and pr.context in grammar.NESTED_CONTEXTS:
         return False            # execution order of a nested function is not static
     return True
@@ -51,6 +49,11 @@ def eval_prog(ld, st, groups=None):
                      {'program': discovery.show_prog(ld), 'discovered': str(sig), 'declared': [str(e) for e in exps],
                       'expectation': why}, {'context': pr.context, 'route': pr.route, 'why': why,
                                             'taint': pr.taint[0] if pr.taint else None})
+        return
+    if pr.route in ('wrapssig', 'kpartial'):
+        # parameters only (kpartial: the partial object itself is part of the real provenance): the expectation was computed on a bare copy of the wrapper, whose provenance names that copy
+        if why == 'declared':
+            st.seen('nontrivial', (pr.outer, pr.calls[0].callee, shape_of(sig)))
         return
     if pr.route == 'wrapsdeco':
         # one more level of forwarding: the only-wrapping decorator at depth 0, the wrapper below it
